@@ -63,8 +63,16 @@ package server
 //@ ensures (table in m.request) && m.request[table] != nil ==> result0 == m.request[table].Columns
 //@ ensures !((table in m.request) && m.request[table] != nil) ==> len(result0) == 0
 //@ ensures (table in m.request) && m.request[table] != nil && m.request[table].Select != nil ==> result1 == *m.request[table].Select
+// filterColumns is the exact projection: the result holds the columns of the
+// row that were asked for, with the row's values, and is a new map.
 //@ func filterColumns
 //@ modifies nothing
+//@ ensures row == nil ==> result == nil
+//@ ensures row != nil ==> result != nil && fresh(result)
+//@ ensures row != nil ==> (forall k: string :: (k in *result) == ((k in *row) && (k in columns)))
+//@ ensures row != nil ==> (forall k: string :: (k in *result) ==> (*result)[k] == (*row)[k])
+//@ loop 1 invariant forall k: string :: (k in new) == (visited(k) && (k in *row) && (k in columns))
+//@ loop 1 invariant forall k: string :: (k in new) ==> new[k] == (*row)[k]
 
 // Monitor / MonitorCond / MonitorCondSince (C17/C01, F11): the initial contents
 // are read, and the monitor is registered, while the transaction mutex is held -
